@@ -402,6 +402,19 @@ def check_estimate_lam(a, o, As):
     return e
 
 
+def brute_grad(a, weighted=True):
+    """brute-force gradient matrices of the objective of fg.evaluate (pure Python): sum over all subscripts of
+    w * g(x, m) * prod_{l != k} A_l[i_l, r], times the component weight when `weighted` (the exact partial derivative)"""
+    shp, R, fac = a["shape"], a["R"], a["factors"]
+    subs_all = _all_subs(shp)
+    lam = a.get("lam", [1] * R)
+    g = PG[a["fid"]]
+    w = a.get("w") or [1] * len(subs_all)
+    mv = [sum(lam[r] * _prod_skip(fac, i, r, -1) for r in range(R)) for i in subs_all]
+    return [[[sum(w[n] * g(a["data"][n], mv[n]) * (lam[r] if weighted else 1) * _prod_skip(fac, i, r, k)
+                  for n, i in enumerate(subs_all) if i[k] == j) for r in range(R)] for j in range(shp[k])] for k in range(len(shp))]
+
+
 def oracle_tensor(op, a, o):
     shp, R, fac = a["shape"], a["R"], a["factors"]
     subs_all = _all_subs(shp)
@@ -436,6 +449,15 @@ def oracle_tensor(op, a, o):
 
     def mval(i):
         return sum(lam[r] * _prod_skip(fac, i, r, -1) for r in range(R))
+    if op == "evaluate_struct":
+        w = a.get("w") or [1] * len(subs_all)
+        F = sum(w[n] * f(a["data"][n], mval(i)) for n, i in enumerate(subs_all))
+        if o["F"] != F:
+            return f"objective {o['F']} is not the weighted sum of the loss over all entries ({F})"
+        G = brute_grad(a, weighted=False)
+        if o["G"] != G:
+            return f"matrices {o['G']} are not the per-mode MTTKRPs of the element-wise derivative array ({G})"
+        return None
     if op in ("evaluate", "estimate_full"):
         w = a.get("w") or [1] * len(subs_all)
         F = sum(w[n] * f(a["data"][n], mval(i)) for n, i in enumerate(subs_all))
